@@ -121,6 +121,20 @@ pub open spec fn sa_port(s: SocketAddr) -> u16 {
 }
 pub assume_specification [ SocketAddr::ip ] (s: &SocketAddr) -> (r: IpAddr)
     ensures r == sa_ip(*s);
+/// `::ffff:a.b.c.d` (RFC 4291 2.5.5.2): ten zero bytes, two 0xff bytes, then the IPv4 address
+pub open spec fn ip6_is_v4_mapped(o: Seq<u8>) -> bool {
+    o.len() == 16 && (forall|i: int| 0 <= i < 10 ==> o[i] == 0u8) && o[10] == 0xffu8 && o[11] == 0xffu8
+}
+/// `IpAddr::to_canonical` / `Ipv6Addr::to_canonical`: an IPv4-mapped IPv6 address becomes that IPv4 address, everything else is unchanged
+pub assume_specification [ IpAddr::to_canonical ] (a: &IpAddr) -> (r: IpAddr)
+    ensures match *a {
+        IpAddr::V4(x) => r == IpAddr::V4(x),
+        IpAddr::V6(x) => if ip6_is_v4_mapped(ip6_octets(x)) { r matches IpAddr::V4(y) && ip4_octets(y) == ip6_octets(x).subrange(12, 16) } else { r == IpAddr::V6(x) },
+    };
+pub assume_specification [ Ipv6Addr::to_canonical ] (x: &Ipv6Addr) -> (r: IpAddr)
+    ensures if ip6_is_v4_mapped(ip6_octets(*x)) { r matches IpAddr::V4(y) && ip4_octets(y) == ip6_octets(*x).subrange(12, 16) } else { r == IpAddr::V6(*x) };
+pub assume_specification [ Ipv6Addr::to_ipv4_mapped ] (x: &Ipv6Addr) -> (r: Option<Ipv4Addr>)
+    ensures if ip6_is_v4_mapped(ip6_octets(*x)) { r matches Some(y) && ip4_octets(y) == ip6_octets(*x).subrange(12, 16) } else { r is None };
 pub assume_specification [ SocketAddr::port ] (s: &SocketAddr) -> (r: u16)
     ensures r == sa_port(*s);
 
@@ -237,6 +251,21 @@ pub open spec fn seq_rep<T>(p: Seq<T>, k: nat) -> Seq<T>
 pub uninterp spec fn trim_start_rel<P>(s: &str, p: P, r: &str) -> bool;
 pub assume_specification<'a, P: core::str::pattern::Pattern> [ str::trim_start_matches::<P> ] (s: &'a str, pat: P) -> (r: &'a str)
     ensures trim_start_rel(s, pat, r);
+/// Unicode `White_Space` (what `char::is_whitespace` tests); T18 in trusted.rs fixes it on ASCII
+pub uninterp spec fn is_ws(c: char) -> bool;
+/// `r` is `s` without its leading (`front`) / trailing (`back`) run of white space
+pub open spec fn trimmed_of(s: Seq<char>, r: Seq<char>, front: bool, back: bool) -> bool {
+    exists|a: int, b: int| 0 <= a <= b <= s.len() && r == s.subrange(a, b)
+        && (forall|i: int| 0 <= i < a ==> is_ws(#[trigger] s[i])) && (forall|i: int| b <= i < s.len() ==> is_ws(#[trigger] s[i]))
+        && (if front { a == b || !is_ws(s[a]) } else { a == 0 })
+        && (if back { a == b || !is_ws(s[b - 1]) } else { b == s.len() })
+}
+pub assume_specification<'a> [ str::trim ] (s: &'a str) -> (r: &'a str)
+    ensures trimmed_of(s@, r@, true, true);
+pub assume_specification<'a> [ str::trim_start ] (s: &'a str) -> (r: &'a str)
+    ensures trimmed_of(s@, r@, true, false);
+pub assume_specification<'a> [ str::trim_end ] (s: &'a str) -> (r: &'a str)
+    ensures trimmed_of(s@, r@, false, true);
 /// `s.strip_prefix(pat)`; given meaning for `&str` patterns by axiom_strip_prefix_str (trusted.rs)
 pub uninterp spec fn strip_prefix_rel<P>(s: &str, p: P, r: Option<&str>) -> bool;
 pub assume_specification<'a, P: core::str::pattern::Pattern> [ str::strip_prefix::<P> ] (s: &'a str, pat: P) -> (r: Option<&'a str>)
